@@ -76,6 +76,10 @@ func (s *sgen) buildScenario(dt string, ncli int) []scenStep {
 	return steps
 }
 
+// createStep is the scenario position of the creator's first request (negative positions -c are the
+// subscribe requests of the other clients)
+const createStep = -1000
+
 type faultPoint struct {
 	step int
 	k    int
@@ -114,10 +118,18 @@ func (s *sgen) playScenario(id int, dt string, ncli int, steps []scenStep, fp *f
 	// the creator registers the datatype first, then everybody subscribes (fault-free): the faults of
 	// this slice hit requests of subscribed clients; faults during create/subscribe requests are drawn
 	// by the `subfault` scenarios (fp.step < 0), which skip this phase for the faulted client
+	if fp != nil && fp.step == createStep {
+		// the fault hits the request that CREATES the datatype; the sync below is the creator's retry
+		if s.emit(s.w.stepFaultSync(0, 0, fp.k, fp.mode, cls)) {
+			return logs, nil, false
+		}
+	}
+	s.w.kit.Mongo.ResetLog()
 	s.hold++
 	if s.emit(s.w.stepSync(0, []int{0}, "", s.hold, nil)) {
 		return logs, nil, false
 	}
+	logs[createStep] = s.w.kit.Mongo.Log()
 	for c := 1; c < ncli; c++ {
 		if fp != nil && fp.step == -c {
 			if s.emit(s.w.stepFaultSync(c, c, fp.k, fp.mode, cls)) {
@@ -280,6 +292,17 @@ func runDbFault(seed uint64, cases, from int, out func(cmd, obs J), statsPath st
 			pi := r.intn(len(points))
 			if thorough {
 				pi = 0
+			} else if b == 0 {
+				// one fault of every scenario hits the creating request
+				var cr []int
+				for i, p := range points {
+					if p.step == createStep {
+						cr = append(cr, i)
+					}
+				}
+				if len(cr) > 0 {
+					pi = cr[r.intn(len(cr))]
+				}
 			}
 			fp := points[pi]
 			points = append(points[:pi], points[pi+1:]...)
